@@ -34,14 +34,14 @@ ASSUMPTIONS = [
 NSHARDS = {"quick": 16, "thorough": 16}
 BUDGET_S = {"quick": 18, "thorough": 300}
 FLOORS = {
-    "quick": {"evaluations": 4000, "distinct": 2000,
-              "counters": {"twin_invocations": 2000, "marked_renders": 2000,
-                           "security_errors": 2000, "async_cases": 300,
-                           "override_env_cases": 200}},
+    "quick": {"evaluations": 8000, "distinct": 4000,
+              "counters": {"twin_invocations": 4000, "marked_renders": 4000,
+                           "security_errors": 4000, "async_cases": 1200,
+                           "override_env_cases": 2000}},
     "thorough": {"evaluations": 60000, "distinct": 30000,
                  "counters": {"twin_invocations": 30000, "marked_renders": 30000,
-                              "security_errors": 30000, "async_cases": 5000,
-                              "override_env_cases": 3000}},
+                              "security_errors": 30000, "async_cases": 8000,
+                              "override_env_cases": 12000}},
 }
 
 # ------------------------------------------------------------------ grammar
